@@ -14,6 +14,14 @@
 //	early  a plaintext application-data record injected in front of the j-th handshake record the
 //	       peer sends (every j, both ends).
 //
+// One concurrent situation is part of the api histories, because Close is documented to be
+// callable in it ("this Close is really just being used to break the Write"): a Write on another
+// goroutine that sits inside the transport write. `WP<n>` starts it (observation `block` when it
+// reached the transport, where the wrapper parks it; otherwise what it returned), `WK` lets the
+// transport write go on and reports what the Write returned (`none`: nothing was in flight). While
+// it is parked it holds c.out: calls that need that mutex (Write, CloseWrite) would wait for it;
+// they are not run, the observation is `block` (waiting is C13's subject).
+//
 // One case per line; observed = one result per API call:
 //
 //	ok | ok.<hex> | okerr.<hex>.<err> | <err>     err = eof ueof closed shutdown early_cw remote.N
@@ -53,6 +61,10 @@ type wrap struct {
 	fired   bool // cancel was called (inside the cancelK-th transport operation of the handshake)
 	closedC chan struct{}
 	once    sync.Once
+	// the next Write parks (a peer that does not read, full socket buffers) until released or closed
+	parkNext bool
+	entered  chan struct{} // closed when the write has reached the gate
+	release  chan struct{} // closed to let it go on
 }
 
 var errBoom = errors.New("boom: transport failed")
@@ -103,7 +115,28 @@ func (w *wrap) Read(p []byte) (int, error) {
 
 func (w *wrap) Write(p []byte) (int, error) {
 	w.tick()
+	select {
+	case <-w.closedC: // a closed transport refuses writes as closed, whatever else is scripted
+		return 0, net.ErrClosed
+	default:
+	}
 	w.mu.Lock()
+	if w.parkNext {
+		w.parkNext = false
+		ent, rel := w.entered, w.release
+		w.mu.Unlock()
+		close(ent)
+		select {
+		case <-rel:
+		case <-w.closedC:
+		}
+		select {
+		case <-w.closedC: // the transport was closed under the write
+			return 0, net.ErrClosed
+		default:
+		}
+		w.mu.Lock()
+	}
 	mode := w.wmode
 	w.mu.Unlock()
 	switch mode {
@@ -184,6 +217,12 @@ type endpoints struct {
 	// the transport keeps ONE pending read error; the script (and the model) queue them
 	ttPending  int  // scripted timeouts not yet reported
 	permQueued bool // a permanent error scripted while a timeout was still pending
+	// the Write in flight (WP … WK)
+	flightRes chan string   // what it returned
+	flightRel chan struct{} // closed to release it
+	// Close has been called: the interlock refuses every Write at once, and the transport has been
+	// closed under the Write in flight — nothing waits for it any more
+	closeCalled bool
 }
 
 // setup builds a pair; side = which end is the unit under test. If doHandshake, both handshakes run.
@@ -239,7 +278,22 @@ func runOps(ep *endpoints, ops []string, startIdx int) []string {
 			buf := make([]byte, arg(op[1:]))
 			ep.uw.SetReadDeadline(time.Now().Add(80 * time.Millisecond))
 			t0 := time.Now()
-			n, err := ep.uut.Read(buf)
+			var n int
+			var err error
+			if ep.flightRes != nil && !ep.closeCalled {
+				// a Read that has to send an alert would wait for c.out, which the Write in flight holds
+				// (the histories generated avoid it): do not hang the run
+				done := make(chan struct{})
+				go func() { n, err = ep.uut.Read(buf); close(done) }()
+				select {
+				case <-done:
+				case <-time.After(3 * time.Second):
+					obs = append(obs, "hang")
+					return obs
+				}
+			} else {
+				n, err = ep.uut.Read(buf)
+			}
 			ep.uw.SetReadDeadline(time.Time{})
 			e := errEnum(err)
 			if (e == "timeout" || e == "other") && time.Since(t0) > 60*time.Millisecond {
@@ -268,12 +322,67 @@ func runOps(ep *endpoints, ops []string, startIdx int) []string {
 			default:
 				obs = append(obs, e)
 			}
+		case strings.HasPrefix(op, "WP"): // a Write on another goroutine, observed up to the transport write
+			if ep.flightRes != nil && !ep.closeCalled {
+				obs = append(obs, "block") // it would wait for c.out, held by the Write in flight: not run
+				break
+			}
+			ent, rel := make(chan struct{}), make(chan struct{})
+			ep.uw.mu.Lock()
+			ep.uw.parkNext, ep.uw.entered, ep.uw.release = true, ent, rel
+			ep.uw.mu.Unlock()
+			res := make(chan string, 1)
+			data := pattern(idx, arg(op[2:]))
+			go func() {
+				var err error
+				if pan := hx.Guard(func() { _, err = ep.uut.Write(data) }); pan != "" {
+					res <- "panic"
+					return
+				}
+				res <- errEnum(err)
+			}()
+			select {
+			case <-ent:
+				if ep.flightRes == nil {
+					ep.flightRes, ep.flightRel = res, rel
+				}
+				obs = append(obs, "block")
+			case r := <-res: // it returned without getting to the transport
+				ep.uw.mu.Lock()
+				ep.uw.parkNext = false
+				ep.uw.mu.Unlock()
+				obs = append(obs, r)
+			case <-time.After(5 * time.Second):
+				obs = append(obs, "hang")
+			}
+		case op == "WK": // the transport write of the Write in flight goes on; the Write returns
+			if ep.flightRes == nil {
+				obs = append(obs, "none")
+				break
+			}
+			close(ep.flightRel)
+			select {
+			case r := <-ep.flightRes:
+				obs = append(obs, r)
+			case <-time.After(5 * time.Second):
+				obs = append(obs, "hang")
+			}
+			ep.flightRes, ep.flightRel = nil, nil
 		case op[0] == 'W':
+			if ep.flightRes != nil && !ep.closeCalled {
+				obs = append(obs, "block") // see WP
+				break
+			}
 			_, err := ep.uut.Write(pattern(idx, arg(op[1:])))
 			obs = append(obs, errEnum(err))
 		case op == "C":
+			ep.closeCalled = true
 			obs = append(obs, errEnum(ep.uut.Close()))
 		case op == "CW":
+			if ep.flightRes != nil {
+				obs = append(obs, "block") // closeNotify would wait for c.out: not run
+				break
+			}
 			obs = append(obs, errEnum(ep.uut.CloseWrite()))
 		case op == "H":
 			obs = append(obs, errEnum(ep.uut.Handshake()))
@@ -362,6 +471,13 @@ func emitAPI(side, suite, seg string, ops []string) {
 	ep.uut.Close()
 	ep.peer.Close()
 	ep.pe.Close()
+	ep.uw.Close()
+	if ep.flightRes != nil { // a Write still in flight at the end of the history: broken by the teardown
+		select {
+		case <-ep.flightRes:
+		case <-time.After(2 * time.Second):
+		}
+	}
 	o := "res=" + strings.Join(obs, ",")
 	if len(obs) == 0 {
 		o = "res=-"
@@ -480,6 +596,46 @@ func phaseAPI(o hx.Opts, r *hx.Rand) {
 				e(f, "C", "wfn", "W1", "CW", "C")
 				e("pd3", f, "CW", "wfn", "R5", "W1", "pd2", "R5", "CW")
 			}
+			// ---- a fatal error of the record layer while the transport refuses writes (a write deadline that
+			// has lapsed: nothing / half of the alert record is taken; a transport error): the alert is lost,
+			// the connection is dead all the same — when the transport works again every Write must fail
+			for _, f := range []string{"wft", "wfp", "wfh"} {
+				for _, bad := range []string{"pg23", "pg21", "pg22", "ph3", "pa3.40", "pa0.20"} {
+					e(f, bad, "R5", "R5", "wfn", "W1", "W1", "C")
+					e("pd3", f, bad, "R5", "R5", "wfn", "W2", "R5")
+					if thorough || bad == "pg23" {
+						e(f, bad, "R5", "wfn", "CW", "W1", "H", "C")
+						e("W2", "PR8", f, bad, "R5", "wfn", "W3", "PR8")
+						ea("pd3", f, bad, "R3", "R3", "wfn", "W1", "R3")
+					}
+				}
+				e(cat(cat([]string{f}, w16...), "pa1.90", "pd2", "R5", "wfn", "W1", "R5")...)
+				ea("pd3", f, "pg21", "R3", "wfn", "W1", "R3") // the look-ahead meets the forgery: bytes and the error, alert lost
+			}
+			e("wft", "pg23", "wfn", "R5", "W1")   // the deadline is re-armed before the error is detected: the alert goes out
+			e("wft", "pd3", "R5", "wfn", "W1")    // no error detected: the Write works
+			e("wft", "pa2.40", "R5", "wfn", "W1") // a RECEIVED fatal alert: reads are dead, Write still works (as in crypto/tls)
+			// ---- Close while a Write sits in the transport write (WP … WK): the Write is broken, and the
+			// connection is closed for every later call whatever was in flight
+			e("pd5", "R2", "WP3", "C", "R10", "C", "W1", "WK", "R10", "C", "H")
+			e("WP3", "C", "WK", "W1", "C", "R5")
+			e("WP3", "C", "C", "R5", "W1", "WP1", "WK", "WK")
+			e("WP40", "pd3", "R5", "H", "R0", "C", "WK", "C", "CW", "R5")
+			e("WP3", "pc", "R5", "R5", "C", "R5", "WK", "W1")
+			e("pd2", "WP3", "te", "R1", "C", "R1", "R1", "WK", "C")
+			e("WP3", "pa2.40", "R5", "C", "WK", "R5", "C")
+			ea("pd5", "pc", "R2", "WP3", "C", "R9", "R9", "WK", "C")
+			ea("pd3", "pd4", "R2", "WP1", "R2", "C", "R9", "WK", "W1")
+			// … and without Close the Write cut in two is an ordinary Write
+			e("WP3", "WK", "W1", "PR8", "PR8", "C", "C")
+			e("WP3", "R0", "H", "pd3", "R5", "WK", "W2", "PR8", "PR8", "CW", "W1")
+			e("WP0", "WK", "WP3", "W1", "CW", "WP1", "WK", "W1", "CW", "WK")
+			e("WP3", "wfp", "WK", "wfn", "W1", "CW", "C")
+			e("WP3", "wft", "WK", "wfn", "W1", "PR8", "C")
+			e("WP9", "wfh", "WK", "wfn", "W1", "C")
+			e("CW", "WP3", "WK", "C", "WP3", "WK")
+			e("C", "WP3", "WK", "R5")
+			e("wft", "W3", "wfn", "WP3", "WK")
 			// ---- the transport hands over everything it holds in one read (seg=all): what the peer wrote
 			// back to back is buffered together, the close-notify look-ahead of Read is live.
 			// The peer's last data record and its close_notify / a clean end / a fatal alert, read with
@@ -538,6 +694,7 @@ func phaseAPI(o hx.Opts, r *hx.Rand) {
 		needRead := false // a scripted timeout is pending: the next op must be a Read
 		peerRecs := 0     // records queued towards the unit
 		ttUsed := false   // the transport holds ONE pending read error: at most one scripted timeout per history
+		hazard := false   // a record that makes this side send an alert has been queued (pg, ph, alerts of an undefined level)
 		for j := 0; j < ln; j++ {
 			if needRead {
 				ops = append(ops, "R"+strconv.Itoa(1+r.Intn(8)))
@@ -555,6 +712,66 @@ func phaseAPI(o hx.Opts, r *hx.Rand) {
 			if r.Intn(100) < 5 {
 				// the transport refuses exactly one call's writes and works again afterwards
 				ops = append(ops, "wf"+hx.Pick(r, []string{"t", "p", "h"}), hx.Pick(r, []string{"CW", "CW", "C", "W3"}), "wfn")
+				continue
+			}
+			if y := r.Intn(100); y < 4 && !ended {
+				// the transport refuses writes at the moment the record layer detects a fatal error (the
+				// alert is lost) and works again afterwards
+				ops = append(ops, "wf"+hx.Pick(r, []string{"t", "p", "h"}),
+					hx.Pick(r, []string{"pg21", "pg22", "pg23", "pg23", "ph2", "pa3.40", "pa0.20"}),
+					"R"+strconv.Itoa(hx.Pick(r, []int{1, 5, 64})), "wfn")
+				if r.Intn(2) == 0 {
+					ops = append(ops, "W"+strconv.Itoa(hx.Pick(r, []int{0, 1, 3})))
+				}
+				ended = true // what follows a fatal error is never looked at
+				hazard = true
+				continue
+			} else if y < 9 && !hazard {
+				// a Write on another goroutine sits in the transport write; reads and what the peer does go
+				// on (nothing that makes this side send an alert: that would wait for the mutex the Write
+				// holds); Close breaks the Write; calls after Close; then the Write returns
+				ops = append(ops, "WP"+strconv.Itoa(hx.Pick(r, []int{0, 1, 3, 40})))
+				safe := func(afterClose bool) string {
+					z := r.Intn(100)
+					switch {
+					case z < 35:
+						return "R" + strconv.Itoa(hx.Pick(r, []int{0, 1, 2, 5, 64}))
+					case z < 45:
+						return "H"
+					case afterClose && z < 60:
+						return "W" + strconv.Itoa(hx.Pick(r, []int{0, 1, 3}))
+					case afterClose && z < 75:
+						return "C"
+					case afterClose && z < 80:
+						return "WP1"
+					case z < 50:
+						return "PR8"
+					case ended || (seg == "all" && peerRecs >= 5):
+						return "R" + strconv.Itoa(1+r.Intn(8))
+					case z < 75:
+						peerRecs++
+						return "pd" + strconv.Itoa(hx.Pick(r, []int{1, 3, 9}))
+					case z < 85:
+						peerRecs++
+						return "pc"
+					case z < 92:
+						peerRecs++
+						return "pa2." + strconv.Itoa(hx.Pick(r, []int{20, 40}))
+					default:
+						ended = true
+						return "te"
+					}
+				}
+				for k := r.Intn(4); k > 0; k-- {
+					ops = append(ops, safe(false))
+				}
+				if r.Intn(100) < 70 {
+					ops = append(ops, "C")
+					for k := r.Intn(4); k > 0; k-- {
+						ops = append(ops, safe(true))
+					}
+				}
+				ops = append(ops, "WK")
 				continue
 			}
 			x := r.Intn(100)
@@ -576,7 +793,9 @@ func phaseAPI(o hx.Opts, r *hx.Rand) {
 			case x < 66:
 				ops = append(ops, "pd"+strconv.Itoa(hx.Pick(r, []int{0, 1, 3, 9})))
 			case x < 74:
-				ops = append(ops, fmt.Sprintf("pa%d.%d", hx.Pick(r, []int{1, 1, 2, 2, 0, 3}), hx.Pick(r, []int{0, 10, 20, 40, 90, 100})))
+				lvl := hx.Pick(r, []int{1, 1, 2, 2, 0, 3})
+				hazard = hazard || lvl == 0 || lvl == 3
+				ops = append(ops, fmt.Sprintf("pa%d.%d", lvl, hx.Pick(r, []int{0, 10, 20, 40, 90, 100})))
 			case x < 79:
 				ops = append(ops, "pc")
 			case x < 83:
@@ -600,10 +819,12 @@ func phaseAPI(o hx.Opts, r *hx.Rand) {
 				ops = append(ops, "wf"+hx.Pick(r, []string{"t", "p", "n", "h", "n"}))
 			case x < 97:
 				ops = append(ops, "pg"+strconv.Itoa(hx.Pick(r, []int{21, 22, 23})))
+				hazard = true
 				ended = true // what follows a forgery is never looked at
 			case x < 98:
 				ops = append(ops, "PR8")
 			default:
+				hazard = true
 				ops = append(ops, "ph"+strconv.Itoa(1+r.Intn(5)))
 			}
 		}
